@@ -59,6 +59,7 @@ type Solvers struct {
 	auto    bool // choose first solver by query shape
 	fast    *proc
 	fastMiss int
+	rescues  map[string]int
 	Disagreements int
 }
 
@@ -84,7 +85,7 @@ func solverArgv(name string, timeoutMs int) ([]string, bool) {
 }
 
 func NewSolvers(ctx *TermCtx, order []string, timeout time.Duration, confirm bool) *Solvers {
-	s := &Solvers{ctx: ctx, cache: map[string]cacheEnt{}, timeout: timeout, confirm: confirm, auto: true}
+	s := &Solvers{ctx: ctx, cache: map[string]cacheEnt{}, timeout: timeout, confirm: confirm, auto: true, rescues: map[string]int{}}
 	s.stats.Queries = map[string]int{}
 	s.stats.Wall = map[string]float64{}
 	for _, n := range order {
@@ -398,12 +399,26 @@ func (s *Solvers) Check(asserts []*Term, wantModel bool) (Result, Model, string)
 		}
 		s.fastMiss++
 	}
-	for _, p := range procs {
+	for pi, p := range procs {
 		if hasFP && p.noFP {
 			continue
 		}
 		t0 := time.Now()
 		r, m, w := p.check(as, vars)
+		if r != Unknown && pi > 0 && !hasFP {
+			// move-to-front: this solver rescued a query the preferred ones could not decide
+			s.rescues[p.name]++
+			if s.rescues[p.name] >= 2 {
+				np := []*proc{p}
+				for _, q := range s.procs {
+					if q != p {
+						np = append(np, q)
+					}
+				}
+				s.procs = np
+				s.rescues = map[string]int{}
+			}
+		}
 		s.stats.Queries[p.name]++
 		s.stats.Wall[p.name] += time.Since(t0).Seconds()
 		if r == Unknown {
@@ -432,6 +447,16 @@ func (s *Solvers) Check(asserts []*Term, wantModel bool) (Result, Model, string)
 		return r, m, ""
 	}
 	s.stats.Unknowns++
+	if d := os.Getenv("GOSYM_DUMP"); d != "" {
+		var sb strings.Builder
+		tmp := &proc{defined: map[int32]bool{}}
+		tmp.define(&sb, as)
+		for _, a := range as {
+			fmt.Fprintf(&sb, "(assert %s)\n", a.ref())
+		}
+		sb.WriteString("(check-sat)\n")
+		os.WriteFile(fmt.Sprintf("%s/unknown-%d.smt2", d, atomic.AddInt64(&solverSeq, 1)), []byte(sb.String()), 0644)
+	}
 	return Unknown, nil, why
 }
 
